@@ -842,6 +842,7 @@ var c07CopyingPkgs = map[string]bool{
 	"bytes": true, "strings": true, "strconv": true, "unicode/utf8": true, "fmt": true, "errors": true,
 	"encoding/json": true, "github.com/json-iterator/go": true, "github.com/pkg/errors": true, "golang.org/x/xerrors": true,
 	"encoding/hex": true, "encoding/base64": true, "hash/crc32": true, "go.uber.org/zap": true,
+	"gopkg.in/yaml.v2": true, "gopkg.in/yaml.v3": true,
 }
 
 // c07Borrowed decides O7.7 over the ammo provider packages.
